@@ -20,16 +20,17 @@ RULE = (
     "main-thread programs: auto('start-msg','end-msg') body of 0-3 steps from {set_message(short|long), work 30/150/400 ms, raise "
     "ValueError, raise KeyboardInterrupt, raise SystemExit}; schedules: depth-first enumeration of scheduling choices (thread "
     "start, join, event set/is_set, sleep, every stream write; a sleeping thread is a candidate and choosing it advances the "
-    "virtual clock) with a pre-emption bound (2 quick / 4 thorough, capped per program), plus seeded random schedules; per "
+    "virtual clock) with a pre-emption bound (2 quick / 6 thorough, capped per program), plus seeded random schedules; per "
     "schedule: spinner not alive and joined after the with-block for every kind of exit; last frame = ' - end-msg' + line "
     "break on normal exit; after every write the emulator's current line is empty or exactly one frame ' <value> <message>' "
-    "of a message that was current. Stress engine: real threads with 0.1-0.5 ms yields inside write. Manual mode: all call "
+    "of a message that was current; every program is also run on an undecorated output (frames are appended lines) and inside "
+    "an indentation scope. Stress engine: real threads with 0.1-0.5 ms yields inside write. Manual mode: all call "
     "sequences of length <= 6 over {start, advance, set_message, finish} x clock steps {0,50,99,100,250 ms}. non-trivial = "
     "schedule with >= 1 pre-emption or a raising body; distinct by trace hash (thread, label sequence)."
 )
 BOUND = {
     "quick": "11 programs x pre-emption bound 2 (cap 600 schedules each) + 120 random schedules each; 12 stress trials; manual sequences of length <= 5",
-    "thorough": "26 programs x pre-emption bound 4 (cap 60000 schedules each) + 6000 random schedules each; 320 stress trials; manual sequences of length <= 6",
+    "thorough": "26 programs x pre-emption bound 6 (cap 80000 schedules each) + 6000 random schedules each; 320 stress trials; manual sequences of length <= 6",
 }
 ASSUMPTIONS = [
     "one OutputStream.write is atomic (a terminal write of a short string); pre-emption inside a write is not explored",
@@ -66,7 +67,7 @@ class BodyCancelled(BaseException):
 
 RAISABLE = {"ValueError": ValueError, "KeyboardInterrupt": KeyboardInterrupt, "SystemExit": SystemExit, "BodyCancelled": BodyCancelled, "GeneratorExit": GeneratorExit}
 
-FRAME = re.compile(r"^ (.) (.*)$")
+FRAME = re.compile(r"^\s*(.) (.*)$")  # leading indentation, if any, is not part of the frame
 
 
 def frame_ok(line, messages):
@@ -102,8 +103,9 @@ class Lab(object):
         self.SchedStream = SchedStream
 
 
-def run_schedule(lab, sched, program, prefix, rng=None, max_steps=600):
-    """Executes the program under one schedule. Returns a result dict."""
+def run_schedule(lab, sched, program, prefix, rng=None, max_steps=600, variant="ansi"):
+    """Executes the program under one schedule. Returns a result dict.
+    variant: 'ansi' (decorated output), 'indented' (decorated, inside an indentation scope), 'plain' (undecorated)."""
     taken = []
 
     def choose(r, s, default_idx):
@@ -119,8 +121,9 @@ def run_schedule(lab, sched, program, prefix, rng=None, max_steps=600):
 
     s = sched.new_run(choose, max_steps)
     st = lab.SchedStream()
-    out = lab.Output(st, lab.AnsiFormatter(forced=True))
-    pi = lab.ProgressIndicator(out, fmt=" {indicator} {message}", interval=100)
+    out = lab.Output(st, lab.PlainFormatter() if variant == "plain" else lab.AnsiFormatter(forced=True))
+    scope = out.indent(3) if variant == "indented" else None
+    pi = lab.ProgressIndicator(out, fmt=" {indicator} {message}" if variant != "plain" else " {message}", interval=100)
     import time
 
     err = None
@@ -146,7 +149,9 @@ def run_schedule(lab, sched, program, prefix, rng=None, max_steps=600):
         pass
     threads = dict((n, t["status"]) for n, t in s.threads.items())
     spinner = [n for n in threads if n != "main"]
-    res = dict(aborted=s.abort, abort_reason=s.abort_reason, exited=exited, error=err, events=list(st.ev), trace=list(s.trace), choices=list(s.choices),
+    if scope is not None:
+        scope.__exit__(None, None, None)
+    res = dict(variant=variant, aborted=s.abort, abort_reason=s.abort_reason, exited=exited, error=err, events=list(st.ev), trace=list(s.trace), choices=list(s.choices),
                spinner_registered=bool(spinner), spinner_alive=any(threads[n] != "done" for n in spinner), messages=messages,
                spinner_error=[s.threads[n].get("error") for n in spinner if s.threads[n].get("error")], join_requested_at=s.join_requested_at, steps=s.steps,
                )
@@ -184,6 +189,18 @@ def judge(sh, res, program, record):
     elif res["error"] is not None:
         sh.violate("unexpected-exception", record, "auto() raised %r" % (res["error"],))
         return
+    if res["variant"] == "plain":
+        # undecorated output: frames are appended lines; the end message is the last non-empty line
+        text = "".join(x for _, x in res["events"])
+        sh.count("writes_replayed", len(res["events"]))
+        if "\x1b" in text or "\r" in text:
+            sh.violate("plain-control-codes", record, "undecorated output received control codes: %r" % text[:80])
+        lines = [l for l in text.split("\n") if l.strip()]
+        if any(l.strip() not in res["messages"] for l in lines):
+            sh.violate("frame-mixture", record, "undecorated output has a line that is not one message: %r" % [l for l in lines if l.strip() not in res["messages"]][:2])
+        elif not raising and (not lines or lines[-1].strip() != "end-msg"):
+            sh.violate("end-frame", record, "after a normal exit the last line is %r" % (lines[-1:] if lines else None,))
+        return
     # (3) no mixture after any write
     t = Term(200)
     try:
@@ -200,7 +217,7 @@ def judge(sh, res, program, record):
     # (2) normal exit: end message is the last frame
     if not raising:
         scr = t.screen()
-        if not scr or scr[-1] != " - end-msg" or not "".join(x for _, x in res["events"]).endswith("\n"):
+        if not scr or scr[-1].strip() != "- end-msg" or not "".join(x for _, x in res["events"]).endswith("\n"):
             sh.violate("end-frame", record, "after a normal exit the screen ends with %r" % (scr[-1:] if scr else None,))
 
 
@@ -211,7 +228,7 @@ def classify_mixture(res):
 TRACES = set()
 
 
-def explore(sh, lab, sched, program, bound, cap, pid):
+def explore(sh, lab, sched, program, bound, cap, pid, variant="ansi"):
     """Depth-first enumeration of schedules with at most ``bound`` pre-emptions."""
     seen = set()
     stack = [()]
@@ -221,14 +238,14 @@ def explore(sh, lab, sched, program, bound, cap, pid):
         if prefix in seen:
             continue
         seen.add(prefix)
-        res = run_schedule(lab, sched, program, list(prefix))
+        res = run_schedule(lab, sched, program, list(prefix), variant=variant)
         n += 1
         choices = res["choices"]
         pre = sum(1 for c in choices if c[2])
-        record = {"program": [list(s) for s in program], "schedule": [c[1] for c in choices]}
+        record = {"program": [list(s) for s in program], "schedule": [c[1] for c in choices], "variant": variant}
         trace_hash = hash(tuple(res["trace"]))
-        TRACES.add((pid, trace_hash))
-        sh.case((pid, trace_hash), pre >= 1 or any(k == "raise" for k, _ in program))
+        TRACES.add((pid, variant, trace_hash))
+        sh.case((pid, variant, trace_hash), pre >= 1 or any(k == "raise" for k, _ in program))
         sh.count("interleavings_run")
         if pre >= 2 and len(sh.samples) < 2:
             sh.sample({"program": [list(x) for x in program], "schedule_choices": [c[1] for c in choices], "preemptions": pre,
@@ -435,7 +452,7 @@ def plan(tier, seed):
         specs = [{"part": "explore", "programs": list(range(i, len(progs), 3)), "bound": 2, "cap": 600, "random": 120} for i in range(3)]
         specs += [{"part": "stress", "trials": 6} for _ in range(2)] + [{"part": "manual", "maxlen": 5}]
         return specs
-    specs = [{"part": "explore", "programs": [i], "bound": 4, "cap": 60000, "random": 6000} for i in range(len(progs))]
+    specs = [{"part": "explore", "programs": [i], "bound": 6, "cap": 80000, "random": 6000} for i in range(len(progs))]
     specs += [{"part": "stress", "trials": 40} for _ in range(8)] + [{"part": "manual", "maxlen": 6}]
     return specs
 
@@ -455,6 +472,10 @@ def run(sh, spec):
             complete += done
             sh.count("programs")
             run_random(sh, lab, sched, progs[pid], spec["random"], pid)
+            # the same program on an undecorated output and inside an indentation scope (smaller bound)
+            for variant in ("plain", "indented"):
+                explore(sh, lab, sched, progs[pid], min(spec["bound"], 2), min(spec["cap"], 400), pid, variant)
+                sh.count("variant_programs")
         sh.count("programs_fully_enumerated_within_bound", complete)
         sh.count("distinct_interleavings", len(TRACES))
     elif part == "stress":
@@ -481,7 +502,7 @@ def replay(sh, case):
         sched.install()
         lab = Lab(sched)
         program = [tuple(s) for s in case["program"]]
-        res = run_schedule(lab, sched, program, case["schedule"])
+        res = run_schedule(lab, sched, program, case["schedule"], variant=case.get("variant", "ansi"))
         judge(sh, res, program, case)
     else:
         sh.inconclusive_because("stress / manual replay: rerun the check with the same VERIF_SEED")
